@@ -395,8 +395,17 @@ func (c *hmapClassifier) classify(n ast.Node) []paths.Event {
 			if _, isLocal := ast.Unparen(l).(*ast.Ident); isLocal && c.norm(rr) == "table" {
 				out = append(out, paths.Event{Kind: "RELOAD", Pos: v.Pos()})
 			}
-			if _, isLocal := ast.Unparen(l).(*ast.Ident); isLocal && strings.Contains(c.norm(rr), "%") && strings.Contains(c.norm(rr), "len(") {
-				out = append(out, paths.Event{Kind: "REINDEX", Arg: c.norm(rr), Pos: v.Pos()})
+			if _, isLocal := ast.Unparen(l).(*ast.Ident); isLocal {
+				rx := rr
+				// index = bucketIndex(hash, len(tab)): a value helper reads as what it returns
+				if call, ok := ast.Unparen(stripConvs(c.info, rr)).(*ast.CallExpr); ok && c.p != nil {
+					if res := helperResults(c.p, c.info, call); len(res) == 1 {
+						rx = res[0]
+					}
+				}
+				if strings.Contains(c.norm(rx), "%") && strings.Contains(c.norm(rx), "len(") {
+					out = append(out, paths.Event{Kind: "REINDEX", Arg: c.norm(rx), Pos: v.Pos()})
+				}
 			}
 		}
 	}
@@ -485,7 +494,7 @@ func (c *hmapClassifier) classify(n ast.Node) []paths.Event {
 			}
 		}
 		if id, ok := ast.Unparen(sel.X).(*ast.Ident); !ok || id.Name != c.recv {
-			if sel.Sel.Name == "Sort" && c.norm(sel.X) == "sort" {
+			if isSortCallName(c.norm(sel.X), sel.Sel.Name) {
 				out = append(out, paths.Event{Kind: "SORT", Pos: call.Pos()})
 			}
 			return true
@@ -3707,4 +3716,19 @@ func (h *hmapType) typedNextKind(ctor *core.FuncInfo, et *types.Named, want stri
 		}
 	}
 	return ""
+}
+
+// isSortCallName: a sorting entry point of the standard library (sort.Sort/Stable/Slice/SliceStable/
+// Strings/Ints, slices.Sort…).
+func isSortCallName(pkg, name string) bool {
+	switch pkg {
+	case "sort":
+		switch name {
+		case "Sort", "Stable", "Slice", "SliceStable", "Strings", "Ints", "Float64s":
+			return true
+		}
+	case "slices":
+		return strings.HasPrefix(name, "Sort")
+	}
+	return false
 }
